@@ -539,6 +539,12 @@ def judgeCase (c : Case) (impl : String) : String :=
   | .fork _ pre sibs recs => judgeSegments (pre :: sibs.map (pre ++ ·)) recs impl
   | .types _ stacks recs => judgeSegments stacks recs impl
   | .desc api ds recs =>
+    -- harness suffixes (review R2): the same descriptor list / builder used a second time on a fresh copy,
+    -- or the same records in a second struct type of the same name, gave a DIFFERENT sequence: the ordered
+    -- stable permutation is unique, so one of the two sorts violates the property
+    if (impl.splitOn " again=").length > 1 then "violation a second sort with the same descriptors gives a different result: " ++ impl
+    else if (impl.splitOn " twin=").length > 1 then "violation the same records in a second record type sort differently: " ++ impl
+    else
     match parseIds impl with
     | none => "violation no sorted list returned: " ++ impl
     | some (ids, mutated) =>
